@@ -434,6 +434,109 @@ pub fn main(tier: Tier, replay: Option<String>) -> i32 {
         rep.merge(r);
         all_seen.extend(seen);
     }
+    // blocks that mint and then move an NFT (a Bound / Normal / Bound triple): one NFT whose payload
+    // carries a deposit and one whose payload is empty, so that the only value-carrying slip of the
+    // transfer is a Bound one. Branch N (mint, transfer, two followers) competes with branch M
+    // (three blocks): the deliveries adopt N, leave it for M, and come back.
+    for g in [10u64] {
+        let mut r = Report::new("C03", tier.clone(), "model_checking");
+        let mut seen: BTreeSet<Hash> = BTreeSet::new();
+        let built = (|| -> Result<TreeWorld, String> {
+            use saito_core::core::consensus::slip::{Slip, SlipType};
+            use saito_core::core::consensus::transaction::{Transaction, TransactionType};
+            use saito_core::core::consensus::wallet::Wallet;
+            let mut w = World::standard(g);
+            let k1 = key(1);
+            let mut tb = vec![];
+            let gt = |id: u64| if id % 2 == 0 { Some(key(0)) } else { None };
+            // N1: two mints
+            let ts = w.child_ts(0, 0);
+            let ins: Vec<Slip> = w.ledgers[0].unspent_of(&k1.public).into_iter().filter(|s| s.amount > 20_000).take(2).collect();
+            if ins.len() < 2 {
+                return Err("payer has fewer than two outputs".into());
+            }
+            let mut mints = vec![];
+            for (i, (input, deposit)) in ins.iter().zip([0u64, 5_000]).enumerate() {
+                let mut t = Transaction::default();
+                t.transaction_type = TransactionType::Bound;
+                t.timestamp = ts + i as u64;
+                let mut inp = input.clone();
+                inp.generate_utxoset_key();
+                t.add_from_slip(inp.clone());
+                t.add_to_slip(Slip { public_key: k1.public, amount: 1, slip_type: SlipType::Bound, ..Default::default() });
+                t.add_to_slip(Slip { public_key: k1.public, amount: deposit, ..Default::default() });
+                t.add_to_slip(Slip { public_key: Wallet::create_nft_uuid(&inp, "art"), amount: 0, slip_type: SlipType::Bound, ..Default::default() });
+                t.add_to_slip(Slip { public_key: k1.public, amount: input.amount - deposit, ..Default::default() });
+                t.sign(&k1.private);
+                mints.push(t);
+            }
+            let mint_sigs: Vec<_> = mints.iter().map(|t| t.signature).collect();
+            let n1 = w.build(0, ts, gt(w.blocks[0].id + 1), mints, "N1")?;
+            tb.push(n1);
+            // N2: both NFTs move to key 2
+            let blk = decode_block(&w.blocks[n1].bytes);
+            let ts2 = w.child_ts(n1, 0);
+            let mut sends = vec![];
+            for sig in mint_sigs.iter() {
+                let (ti, mt) = blk.transactions.iter().enumerate().find(|(_, t)| &t.signature == sig).ok_or("mint not in N1")?;
+                let mut t = Transaction::default();
+                t.transaction_type = TransactionType::Bound;
+                t.timestamp = ts2 + ti as u64;
+                for j in 0..3usize {
+                    let mut sl = mt.to[j].clone();
+                    sl.block_id = blk.id;
+                    sl.tx_ordinal = ti as u64;
+                    sl.slip_index = j as u8;
+                    sl.generate_utxoset_key();
+                    t.add_from_slip(sl.clone());
+                }
+                for j in 0..3usize {
+                    let mut o = Slip { public_key: mt.to[j].public_key, amount: mt.to[j].amount, slip_type: mt.to[j].slip_type, ..Default::default() };
+                    if j == 1 {
+                        o.public_key = key(2).public;
+                    }
+                    t.add_to_slip(o);
+                }
+                t.sign(&k1.private);
+                sends.push(t);
+            }
+            let n2 = w.build(n1, ts2, gt(w.blocks[n1].id + 1), sends, "N2")?;
+            tb.push(n2);
+            let filler = |w: &World, p: usize, name: &str| make_tx(&[], &[(key(2).public, 0)], &key(1), w.child_ts(p, 0), name.as_bytes());
+            // M1..M3 from the stem
+            let mut p = 0usize;
+            for i in 0..3 {
+                let t = filler(&w, p, &format!("m{}", i));
+                let b = w.build(p, w.child_ts(p, 2), gt(w.blocks[p].id + 1), vec![t], &format!("M{}", i + 1))?;
+                tb.push(b);
+                p = b;
+            }
+            // N3, N4 on N2
+            let mut p = n2;
+            for i in 0..2 {
+                let t = filler(&w, p, &format!("n{}", i));
+                let b = w.build(p, w.child_ts(p, 0), gt(w.blocks[p].id + 1), vec![t], &format!("N{}", i + 3))?;
+                tb.push(b);
+                p = b;
+            }
+            Ok(TreeWorld { w, stem: vec![0], tb, invalid: None, shape: vec![0, 1, 0, 3, 4, 2, 6] })
+        })();
+        match built {
+            Ok(tw) => {
+                // tree indices: 0 N1, 1 N2, 2 M1, 3 M2, 4 M3, 5 N3, 6 N4
+                for order in [vec![0usize, 1, 2, 3, 4, 5, 6], vec![2, 3, 0, 1, 5, 4, 6], vec![0, 2, 1, 3, 4, 5, 6], vec![2, 3, 4, 0, 1, 5, 6]] {
+                    for prune in [8u64, 1] {
+                        let ctx = json!({"g": g, "stem": 1, "nft_chain": "mint (with and without deposit), transfer", "order": order, "prune_after_blocks": prune});
+                        r.evaluations += 1;
+                        run_one(&tw, &order, true, false, prune, &mut r, &ctx, "nft", &mut seen);
+                    }
+                }
+            }
+            Err(e) => r.machinery(format!("nft chain g={}: {}", g, e)),
+        }
+        rep.merge(r);
+        all_seen.extend(seen);
+    }
     rep.states = all_seen.len() as u64;
     for d in all_seen.iter().take(0) {
         let _ = d;
